@@ -264,6 +264,20 @@ def run(ctx):
                         trace.append(["sub", role, grp, nested, circuits.index(tgt)])
                 elif step in ("set", "set_bad", "set_invalid"):
                     p, role = params[int(rng.integers(len(params)))]
+                    if step == "set" and role == "phi" and not p.has_bounds() and rng.random() < 0.12:
+                        # two different values that a careless fingerprint confuses (hash(-1) == hash(-2), hash(k) ==
+                        # hash(k + 2**61 - 1), equal reprs at low precision), each followed by a read
+                        a_, b_ = [(-1, -2), (-2.0, -1.0), (0, 2 ** 61 - 1), (1, 2 ** 61), (3, 3 + 2 ** 61 - 1),
+                                  (0.123456789012, 0.123456789013), (1e-9, 2e-9), (2.5, 2.5000001)][int(rng.integers(8))]
+                        if rng.random() < 0.5:
+                            a_, b_ = b_, a_
+                        for v_ in (a_, b_):
+                            p.set(v_)
+                            trace.append(["set", params.index((p, role)), repr(v_), "then read"])
+                            for c_ in circuits:
+                                check_read(ctx, c_, trace, rng, "after a confusable value: ")
+                        ctx.bucket("confusable_values_set_and_read")
+                        continue
                     if step == "set":
                         v = pick_unit(rng, 0.2) if role != "phi" else pick_phase(rng)
                         if p.min_bound is not None:
